@@ -9,7 +9,8 @@ body read <cl> <chunked01> <buf> <max|~> <data> <sched>
    → ok <bytes> spill=<01> req=<total requested> maxoff=<stream offset reached>
    | err <Class> req=… maxoff=…
 body wsgi <errors_map|@> <memfile> <maxbody|~> <CONTENT_LENGTH|~> <HTTP_TRANSFER_ENCODING|~> <data> <sched> <ops>
-   → status=<n> outs=<tok;…> req=… maxoff=…         (ops: B P<k> I S C, `?op` = op inside try/except, see `runOp`)
+   → status=<n> outs=<tok;…> req=… maxoff=…         (ops: B P<k> I S C, `?op` = op inside try/except, R<data>/<sched> L<text> K O, see `runOp`, `ctlOp`;
+      req / maxoff list one number per stream created, in creation order)
 body encode <payload:spelling:ext,…|~> <lastSpelling> <lastExt> <trailer>  → <bytes>
 body spell <upper01> <zeros> <n>                                           → <bytes>
 body raise <errors_map|@> <Class>                                          → <Class | HTTPnnn>
@@ -71,20 +72,65 @@ def runOp (q : Req) (op : String) : Option (Except Err String × Req) :=
     | .ok n => some (.ok s!"c:{n}", q)
   else none
 
-def runOps : Req → List String → List String → Option (Nat × List String × Req)
-  | q, [], outs => some (200, outs.reverse, q)
-  | q, op :: ops, outs =>
+/-- the handler's view: the request object it currently talks to (`cur` = id of the stream behind
+its `wsgi.input`), the original request while it works on a `request.copy()`, and the record of
+every stream created so far (id = creation order).  A copy shares the stream and the buffered
+body OBJECTS with the original; the generators only copy once the body is buffered and use
+rewinding accesses afterwards, so value copies are faithful. -/
+structure HState where
+  q : Req
+  cur : Nat := 0
+  other : Option (Req × Nat) := none
+  streams : List Rec := []
+
+def HState.sync (h : HState) : HState := { h with streams := h.streams.set h.cur h.q.input }
+
+def parseSched (s : String) : List Nat :=
+  if s == "-" then [] else (s.splitOn ".").filterMap (·.toNat?)
+
+/-- handler statements that are not body accesses of `runOp`: `R<data>/<sched>` replace
+`wsgi.input`, `L<text>` assign CONTENT_LENGTH, `K` continue on `request.copy()`, `O` back to the
+original request -/
+def ctlOp (h : HState) (op : String) : Option (String × HState) :=
+  if op.startsWith "R" then
+    match (op.drop 1).toString.splitOn "/" with
+    | [d, sc] =>
+      let r : Rec := { st := ⟨unhexBytes d, parseSched sc⟩ }
+      some ("r", { h with q := (h.q.access (.replaceInput r)).2, cur := h.streams.length,
+                          streams := h.streams ++ [r] })
+    | _ => none
+  else if op.startsWith "L" then
+    some ("l", { h with q := (h.q.access (.setContentLength (unhexStr (op.drop 1).toString))).2 })
+  else if op == "K" then
+    match h.other with
+    | none => some ("k", { h with other := some (h.q, h.cur) })
+    | some _ => none
+  else if op == "O" then
+    match h.other with
+    | some (q0, c0) => some ("o", { h with q := q0, cur := c0, other := none })
+    | none => none
+  else none
+
+def runOps : HState → List String → List String → Option (Nat × List String × HState)
+  | h, [], outs => some (200, outs.reverse, h)
+  | h, op :: ops, outs =>
+    match ctlOp h op with
+    | some (tok, h') => runOps h'.sync ops (tok :: outs)
+    | none =>
     -- `?op` = `try: op  except Exception as e: print(class or HTTP status)` and carry on
     if op.startsWith "?" then
-      match runOp q (op.drop 1).toString with
+      match runOp h.q (op.drop 1).toString with
       | none => none
-      | some (.error e, q') => runOps q' ops (s!"e:{e.name}" :: outs)
-      | some (.ok tok, q') => runOps q' ops (tok :: outs)
+      | some (.error e, q') => runOps ({ h with q := q' }).sync ops (s!"e:{e.name}" :: outs)
+      | some (.ok tok, q') => runOps ({ h with q := q' }).sync ops (tok :: outs)
     else
-    match runOp q op with
+    match runOp h.q op with
     | none => none
-    | some (.error e, q') => some (errStatus e, outs.reverse, q')
-    | some (.ok tok, q') => runOps q' ops (tok :: outs)
+    | some (.error e, q') => some (errStatus e, outs.reverse, ({ h with q := q' }).sync)
+    | some (.ok tok, q') => runOps ({ h with q := q' }).sync ops (tok :: outs)
+
+def showStreams (l : List Rec) : String :=
+  s!"req={",".intercalate (l.map fun r => toString r.requested)} maxoff={",".intercalate (l.map fun r => toString r.pos)}"
 
 def handle : List String → Option String
   | ["read", cl, ch, buf, max, data, sched] => do
@@ -99,8 +145,8 @@ def handle : List String → Option String
     let q : Req := { cfg := { maxBody := maxbody, memfile := memfile, errorsMap := map },
                      clHeader := optStr cl, teHeader := optStr te,
                      input := { st := ⟨unhexBytes data, natList sched⟩ } }
-    let (st, outs, q') ← runOps q (if ops == "-" then [] else ops.splitOn ",") []
-    pure s!"status={st} outs={if outs.isEmpty then "-" else ";".intercalate outs} {showRec q'.input}"
+    let (st, outs, h') ← runOps { q := q, streams := [q.input] } (if ops == "-" then [] else ops.splitOn ",") []
+    pure s!"status={st} outs={if outs.isEmpty then "-" else ";".intercalate outs} {showStreams h'.streams}"
   | ["encode", chunks, ls, le, tr] => do
     let cs ← if chunks == "~" then some [] else (chunks.splitOn ",").mapM parseChunk
     pure (hexBytes (encodeChunked cs (unhexBytes ls) (unhexBytes le) (unhexBytes tr)))
